@@ -822,12 +822,17 @@ J_parse_any(e) ==
       isNow == t = <<110, 111, 119>>                 \* parse("now") is a documented special case
       excName == IF p.top.k = "exc" THEN p.top.names[1] ELSE "-"
       ivok == ascii /\ Len(t) <= 90 /\ IvWellFormed(t)
+      \* where the duration part of a well-formed interval carries its decimal fraction (the classes of C13)
+      ivfc == IF ~ivok THEN "-"
+              ELSE LET j == FirstIn(t, {cSlash}, 1)  a == Sub(t, 1, j - 1)  b == Sub(t, j + 1, Len(t)) IN
+                   IF a[1] = cP THEN FracClass(RecDuration(a)) ELSE IF b[1] = cP THEN FracClass(RecDuration(b)) ELSE "none"
   IN IF isNow THEN R(<<"now">>, <<>>) ELSE
      R(<<outcome, B(o.strict), B(o.exact), B(r.ok), B(rd.ok), B(HasForeign(t)), e.a.origin, "exc", excName,
          "slash", B(Has(t, cSlash)), "iv-wellformed", B(ivok), "iv-endpoint-in-range", (IF ivok THEN B(IvEndpointInRange(t)) ELSE "-"), "nonascii", B(~ascii), "wide", B(rd.ok /\ rd.maxdigits >= 10),
          "longdigits", B(\E i \in 1..(Len(t) - 9) : \A j \in i..(i + 9) : UDigit(t[j])),
          "durfrac", B(rd.ok /\ rd.hasfrac), "trailing-newline", B(Len(t) > 0 /\ t[Len(t)] = 10),
-         "ends-colon", B((Len(t) > 0 /\ t[Len(t)] = cColon) \/ (\E i \in 1..(Len(t) - 1) : t[i] = cColon /\ t[i + 1] \in {cColon, cDot, cComma}))>>,
+         "ends-colon", B((Len(t) > 0 /\ t[Len(t)] = cColon) \/ (\E i \in 1..(Len(t) - 1) : t[i] = cColon /\ t[i + 1] \in {cColon, cDot, cComma})),
+         "iv-durfrac", ivfc>>,
        V("total", IF p.top.k = "exc" THEN "ValueError" \in ToSet(p.top.names) ELSE PendulumValue(p.top), "a pendulum value or ValueError")
        \o V("low-level-total", (p.py.k = "exc" => "ValueError" \in ToSet(p.py.names)) /\ (p.rs.k = "exc" => "ValueError" \in ToSet(p.rs.names)),
             "ValueError")
